@@ -408,6 +408,14 @@ func genNumericEvent(t *rapid.T) ev.Event {
 		}
 		return ev.Event{K: ev.DFloat, DF: d}
 	default:
+		if rapid.IntRange(0, 2).Draw(t, "bboundary") == 0 {
+			// whole numbers at the integer-width boundaries carried as big decimal floats: coefficient around
+			// 2^63 / 2^64 / 19-20 digits, either sign, exponent 0 or small
+			d := &apd.Decimal{Exponent: int32(rapid.SampledFrom([]int{0, 0, 0, 1, 3, 19}).Draw(t, "bbexp"))}
+			d.Coeff.Abs(gen.BigIntValue(t, "bbcoeff"))
+			d.Negative = rapid.Bool().Draw(t, "bbneg") && d.Coeff.Sign() != 0
+			return ev.Event{K: ev.BigDFloat, BDF: d}
+		}
 		d := gen.APDValue(t, "bdf", false)
 		if rapid.IntRange(0, 2).Draw(t, "bint") == 0 && d.Exponent < 0 {
 			d.Exponent = int32(rapid.IntRange(0, 30).Draw(t, "bexp"))
